@@ -5,6 +5,11 @@ ROOT = os.path.dirname(os.path.dirname(os.path.abspath(__file__)))
 BASE_OFF = "cd /repo && env -u BUIDL_VERIF_TRACE /venv/bin/python -m pytest -ra -q -p no:cacheprovider --timeout=900 --continue-on-collection-errors"
 
 CLAIMED = {
+ "C15": dict(
+   text="TLC model-checks the threshold scheme over GF(256) (field arithmetic by definition) with one-byte secrets for every (k, n) up to a bound, dealt exactly as split_secret deals it: every set of at least k shares recovers the secret and the digest share, fewer refuse, the result does not depend on the subset; GF(256) axioms and the generator table. With randbits rebound to a recorded stream TLC re-derives every share mnemonic of generate_shares byte for byte (4-round Feistel from certified PBKDF2-HMAC-SHA256 rows, digest share from a certified HMAC row, Lagrange interpolation, header bit packing, RS1024 checksum); subsets (>= k, < k, mixed splits, wrong passphrase then right) are run through recover_mnemonic and decided; 1..3-word corruptions must be rejected; tables, interpolation, share codec and encryption are decided on random inputs.",
+   design="3/C15",
+   note="Trusted: TLC, Slip39.tla, hashlib (PBKDF2-HMAC-SHA256, HMAC-SHA256), the SLIP39 word list file. RS1024 distance for 2-3 word errors is sampled; (k, n) pairs beyond the quick list only in the thorough tier.",
+   technique="TLA+ GF(256)/Shamir specification: TLC model checking of the threshold machine + TLC byte-exact re-derivation of recorded share generation"),
  "C14": dict(
    text="TLC model-checks the vendored PBKDF2 object's read() as a stream state machine (any sequence of read sizes yields a prefix of T_1||T_2||...), and decides recorded calls: bytes_to_mnemonic / mnemonic_to_bytes for all five entropy sizes against the bit-level BIP39 specification with certified sha256 rows, acceptance of word sequences of every length 11..25 (valid, bad checksum, swapped, unknown word, full words vs unique four-letter prefixes), seeds and master keys for passphrases incl. empty and non-ASCII bytes and for mnemonic sentences of exactly / around the 128-byte HMAC block size, and the RFC 8018 structure of PBKDF2 at small round counts from the HMAC-SHA512 rows the object really computed; model read sequences are replayed on the real object.",
    design="3/C14",
